@@ -856,6 +856,13 @@ def run_cases(tier, r):
                         # to the next block is complex either way
                         for uu in ((u0, u0r) if pk.startswith('dahlquist') else (u0r,)):
                             out.append({'clause': 'run', 'spec': specs[pk], 'L': L, 'M': M, 'alpha': a, 'dt': dt, 't0': t0, 'nblocks': nb, 'avg': avg, 'restol': 1e-12, 'maxiter': maxiter, 'u0': uu})
+    # time windows that lie entirely on the negative axis, and one that ends exactly at 0 (sign handling of the end test)
+    for pk in ('dahlquist3', 'dahlquist_imex3', 'heat8'):
+        for L in ((2, 4) if tier == 'quick' else (1, 2, 3, 4, 8)):
+            for t0 in (-1.25, None):
+                dtn = 1.0 / 16
+                t0v = t0 if t0 is not None else -L * dtn * 2
+                out.append({'clause': 'run', 'spec': specs[pk], 'L': L, 'M': 2, 'alpha': 1e-3, 'dt': dtn, 't0': t0v, 'nblocks': 2, 'avg': True, 'restol': 1e-12, 'maxiter': maxiter, 'u0': u0 if pk.startswith('dahlquist') else u0r})
     return out
 
 
